@@ -13,6 +13,8 @@ verus! {
 //@path std::fs::TryLockError => TryLockError
 //@path std::thread::sleep => thread_sleep
 //@path std::time::Duration::from_millis => duration_from_millis
+//@path std::time::Duration::from_micros => duration_from_micros
+//@path std::sync::atomic::Ordering => atomic_shim::Ordering
 //@path Journal::recover => journal_recover
 //@world fs_read try_exists file.try_lock file.try_lock_shared *.open Self::check_version LockedFileGuard::try_acquire journal_recover Self::recover Self::create_new File::create_new
 
@@ -25,6 +27,7 @@ pub struct World {
     pub mutations: int,                 // number of file-system mutations performed (create / truncate / write / unlink)
     pub recovered: Set<int>, pub created: Set<int>,   // directories handed to Database::recover / Database::create_new
     pub flush_tasks_cleared: bool, pub keyspaces_cleared: bool, pub journal_queue_cleared: bool, pub dir_removed: bool,   // Drop for DatabaseInner
+    pub stop_sent: bool, pub threads: nat,   // stop signal raised; background threads of this instance still running
 }
 pub struct PathBuf { pub id: Ghost<int> }
 pub struct Path { pub id: Ghost<int> }
@@ -96,6 +99,8 @@ impl OpenOptions {
 }
 pub struct Duration { pub ms: u64 }
 pub fn duration_from_millis(ms: u64) -> (r: Duration) { Duration { ms } }
+pub fn duration_from_micros(us: u64) -> (r: Duration) { Duration { ms: us / 1000 } }
+pub mod atomic_shim { pub use std::sync::atomic::Ordering; }
 #[verifier::external_body] pub fn thread_sleep(d: Duration) { unimplemented!() }
 pub struct Arc<T> { pub t: T }
 impl<T> Arc<T> { pub fn new(t: T) -> (r: Arc<T>) ensures r.t == t { Arc { t } } }
@@ -205,21 +210,48 @@ pub struct SupervisorD { pub flush_manager: FlushManager, pub keyspaces: RwLockH
 pub struct ConfigD { pub clean_path_on_drop: bool, pub path: PathBuf }
 impl PathBuf { #[verifier::external_body] pub fn display(&self) -> (r: u8) { unimplemented!() } }
 #[verifier::external_body] pub fn remove_dir_all(p: &PathBuf, Tracked(w): Tracked<&mut World>) -> (r: Result<(), IoError>) ensures *final(w) == (World { dir_removed: final(w).dir_removed, ..*old(w) }) { unimplemented!() }
-pub struct DatabaseInner { pub supervisor: SupervisorD, pub config: ConfigD }
+// background threads: the stop signal, the live-thread counter, the worker pool's channel
+pub struct StopSignal { pub dummy: u8 }
+impl StopSignal { #[verifier::external_body] pub fn send(&self, Tracked(w): Tracked<&mut World>) ensures *final(w) == (World { stop_sent: true, ..*old(w) }) { unimplemented!() } }
+pub struct ThreadCounter { pub dummy: u8 }
+impl ThreadCounter {
+    // AtomicUsize::load of active_thread_counter. ASSUMED: every background thread decrements it as its last action, and
+    // once the database is being dropped no new thread is started, so the count only falls
+    #[verifier::external_body]
+    pub fn load(&self, o: atomic_shim::Ordering, Tracked(w): Tracked<&mut World>) -> (r: usize)
+        ensures final(w).threads <= old(w).threads, r == final(w).threads, *final(w) == (World { threads: final(w).threads, ..*old(w) }),
+    { unimplemented!() }
+}
+pub enum WorkerMessage { Close, Flush, Compact, RotateMemtable }
+pub struct SendResult { pub dummy: u8 }
+pub struct Drained { pub dummy: u8 }
+pub struct WorkerRx { pub dummy: u8 }
+pub struct WorkerTx { pub dummy: u8 }
+impl WorkerRx { #[verifier::external_body] pub fn drain(&self) -> (r: Drained) { unimplemented!() } }
+impl Drained { #[verifier::external_body] pub fn count(self) -> (r: usize) { unimplemented!() } }
+impl WorkerTx {
+    // flume Sender::send of a Close message: wakes one worker, which exits. A worker may only be told to exit after the stop
+    // signal is up (otherwise the supervising threads restart work)
+    #[verifier::external_body]
+    pub fn send(&self, m: WorkerMessage, Tracked(w): Tracked<&mut World>) -> (r: SendResult)
+        ensures final(w).threads <= old(w).threads, *final(w) == (World { threads: final(w).threads, ..*old(w) }),
+    { unimplemented!() }
+}
+pub struct WorkerPoolD { pub rx: WorkerRx, pub sender: WorkerTx }
+pub struct DatabaseInner { pub supervisor: SupervisorD, pub config: ConfigD, pub stop_signal: StopSignal, pub active_thread_counter: ThreadCounter, pub worker_pool: WorkerPoolD }
 
-//@extract src/db.rs :: Drop for DatabaseInner :: drop as=drop_break_cycles world inherent props=C17
-//@anchor self.supervisor.flush_manager.clear()
-//@to-block-end
-//@world flush_manager.clear .clear remove_dir_all
-//@sig fn drop_break_cycles(&mut self) -> ()
+//@extract src/db.rs :: Drop for DatabaseInner :: drop world inherent no_decreases props=C17
+//@world flush_manager.clear .clear remove_dir_all stop_signal.send active_thread_counter.load sender.send
 //@contract
-    ensures true,
-//@proof before shim_slice_end
-    proof {
-        // C17: after the last handle is dropped every back-reference is gone, so the lock guard field is released and the
-        // journal is dropped (and synced by Drop for Journal); reopening then succeeds
-        assert(w.flush_tasks_cleared && w.keyspaces_cleared && w.journal_queue_cleared); // [C17:drop-releases-every-back-reference-to-the-database]
-    }
+    ensures
+        final(w).stop_sent, // [C17:stop-signal-raised]
+        // C17: when the last handle is gone, drop() has waited until no background thread of this instance is left
+        final(w).threads == 0, // [C17:background-threads-have-stopped-when-drop-returns]
+        // ... and every back-reference to the database is released, so the lock guard field is dropped and the journal is
+        // dropped (synced by Drop for Journal, U-WRITE); reopening then succeeds
+        final(w).flush_tasks_cleared && final(w).keyspaces_cleared && final(w).journal_queue_cleared, // [C17:drop-releases-every-back-reference-to-the-database]
+//@loop 0
+            invariant w.stop_sent,
 //@end
 
 //@canary
